@@ -15,6 +15,8 @@ extern "C" int LLVMFuzzerTestOneInput(const uint8_t* data, size_t size) {
     for (int j = 0; j < c.J; j++) c.order[j] = j;
     // Fisher-Yates driven by input bytes (a permutation of the job ids, as mpi_skel's complexity sort produces)
     for (int j = c.J - 1; j > 0 && pos < size; j--, pos++) { int k = data[pos] % (j + 1); std::swap(c.order[j], c.order[k]); }
+    // the public MPIMaster constructor takes any list of distinct ids: stride/offset from the spare bits of byte 3
+    { int stride = 1 + ((data[3] >> 1) & 3), offset = (data[3] >> 3) & 31; for (int j = 0; j < c.J; j++) c.order[j] = offset + stride * c.order[j]; }
     std::vector<int> picks;
     for (; pos < size; pos++) picks.push_back(data[pos]);
     long steps = 0;
